@@ -1,6 +1,7 @@
 # C10 — section layout and flattened copy
 UNITS = [
     Unit('layout', harness=['h_layout.cpp'], repo_units=['asmjit/core/codeholder.cpp']),
+    Unit('relocsize', harness=['../C04/h_addrtab.cpp'], repo_units=['asmjit/core/codeholder.cpp', 'asmjit/core/codewriter.cpp']),
     Unit('newsect', harness=['h_newsect.cpp'], repo_units=['asmjit/core/codeholder.cpp'], extra_c=['memmove_words.c']),
 ]
 B_SEC = '4 sections in by-order sequence; alignment 2^0..2^16 each (text also 0); virtual size all 2^64 values; '
@@ -11,6 +12,8 @@ HARNESSES = [
     Harness('layout', 'h_flatten_copy_big', unwind=81, bounds=B_SEC + 'buffer size 0..16; destination size 0..64; all flags', mem_gb=8, timeout=2400, tiers=('thorough',)),
     Harness('layout', 'h_copy_arbitrary', unwind=49, bounds=B_SEC + 'buffer size 0..8; section offsets all 2^64 values (overlapping / unset included); destination 0..32', mem_gb=6, timeout=900),
     Harness('newsect', 'h_new_section', unwind=6, bounds='1..3 existing sections in any (order,id)-sorted sequence with symbolic int32 orders; new order int32, alignment uint32, flags 16 bit, name size 0..39 or strlen', mem_gb=4, timeout=600),
+    # size estimated before relocation >= size after it, and after == estimate - RelocationSummary.code_size_reduction (the C04 address-table harness)
+    Harness('relocsize', 'h_addrtab_one', unwind=33, bounds='x86-64; one call/jmp site, target and base all 2^64; .text + user section before or after .addrtab; flatten, code_size, relocate_to_base, code_size', mem_gb=6, timeout=900),
 ]
 EXPLANATION = 'bounded symbolic execution (CBMC) of the real CodeHolder::flatten / code_size / copy_flattened_data / new_section / relocate_to_base compiled from /repo, from directly constructed section tables; oracles are exact-arithmetic layout rules and a byte-by-byte image specification written in the harness'
 OUTSIDE = ['more than 4 sections (the loops are uniform in the section count)', 'section buffers larger than 16 bytes / destinations larger than 96 bytes',
